@@ -370,3 +370,38 @@ Theorem svcb_record_len_never_underestimates :
     lenN (pn_out st') - lenN (pn_out st) <= rr_len (svcb_record h priority target ts).
 Proof. exact svcb_record_len_ge_pack. Qed.
 Print Assumptions svcb_record_len_never_underestimates.
+
+(* ---------------- the message, with option / parameter VALUES ---------------- *)
+(* Proofs/OptValMsgProofs.v: every record of the three sections either satisfies
+   rr_okb (rr_okb2 for the compressed statement) or is an OPT / SVCB / HTTPS
+   record built from Go struct values whose pack() succeeds.  No hypothesis about
+   option lengths remains. *)
+From Dns Require Import Proofs.OptValMsgProofs.
+
+Theorem valued_msg_uncompressed_len_never_underestimates :
+  forall (m : msg) (buflen : N) (w : bytes) (used : bool),
+    (forall r, In r (m_answer m ++ m_ns m ++ m_extra m) -> rr_okb r = true \/
+       (exists h vs ts, opt_triples vs = Ok ts /\ r = opt_record h ts) \/
+       (exists h p t vs ts, svcb_triples vs = Ok ts /\ r = svcb_record h p t ts)) ->
+    pack_msg_buf m buflen = Ok (w, used) -> lenN w <= msg_len_with m None.
+Proof. exact valued_msg_uncompressed_len_ge_pack. Qed.
+Print Assumptions valued_msg_uncompressed_len_never_underestimates.
+
+Theorem valued_msg_len_never_underestimates_uncompressed :
+  forall (m : msg) (w : bytes),
+    (forall r, In r (m_answer m ++ m_ns m ++ m_extra m) -> rr_okb r = true \/
+       (exists h vs ts, opt_triples vs = Ok ts /\ r = opt_record h ts) \/
+       (exists h p t vs ts, svcb_triples vs = Ok ts /\ r = svcb_record h p t ts)) ->
+    msg_compress m = false -> pack_msg m = Ok w -> lenN w <= msg_len m.
+Proof. exact valued_msg_len_ge_pack_uncompressed. Qed.
+Print Assumptions valued_msg_len_never_underestimates_uncompressed.
+
+(* under the message's own compression setting *)
+Theorem valued_msg_len_never_underestimates :
+  forall (m : msg) (w : bytes),
+    (forall r, In r (m_answer m ++ m_ns m ++ m_extra m) -> rr_okb2 r = true \/
+       (exists h vs ts, opt_triples vs = Ok ts /\ r = opt_record h ts) \/
+       (exists h p t vs ts, svcb_triples vs = Ok ts /\ r = svcb_record h p t ts)) ->
+    pack_msg m = Ok w -> lenN w <= msg_len m.
+Proof. exact valued_msg_len_ge_pack. Qed.
+Print Assumptions valued_msg_len_never_underestimates.
